@@ -93,7 +93,7 @@ const lex_en_main int = 89
 type lexer struct {
 	data     string
 	p, pe, m int
-	id       string
+	id, mid  string
 }
 
 // initialize/reset lexer with data string to lex
@@ -102,14 +102,16 @@ func (l *lexer) init(data string) {
 	l.data = data
 }
 
-// mark the current lexer position
+// mark the current lexer position (and the identifier of the current token)
 func (l *lexer) mark() {
 	l.m = l.p
+	l.mid = l.id
 }
 
-// rewind position to the the previously marked position
+// rewind position (and the current identifier) to the the previously marked position
 func (l *lexer) rewind() {
 	l.p = l.m
+	l.id = l.mid
 }
 
 // get the value of an identifier if that's the current token; otherwise, it's undefined
